@@ -260,6 +260,28 @@ def work(shard, rec):
                     got = f"{type(e).__name__}: {e}"
                 if got != c:
                     rec.violation(f"parse_color_to_rgb({v!r}) = {got!r}", {"fn": "tuple", "s": list(c)})
+        # spellings that differ only in whitespace but are different colours: the informal list '10 20 30' and the bare hex
+        # '102030' (and '1 2 3' vs '123'); each is parsed right after the other, in both orders
+        for i in range(1500):
+            if i % 3 == 0:
+                digs = "%d%d%d" % (rnd.randrange(10), rnd.randrange(10), rnd.randrange(10))
+                spaced = " ".join(digs)
+            else:
+                parts = ["%02d" % rnd.randrange(100) for _ in range(3)]
+                digs, spaced = "".join(parts), " ".join(parts)
+            want_hex = csscolor.read("#" + digs)
+            order = [spaced, digs] if i % 2 == 0 else [digs, spaced.replace(" ", ", "), digs]
+            for v in order:
+                try:
+                    got = parse(v)
+                except Exception as e:
+                    got = f"{type(e).__name__}: {e}"
+                if v == digs:
+                    rec.ev()
+                    rec.count("bare_hex_after_lookalike_checked")
+                    if got != want_hex:
+                        rec.violation(f"parse_color_to_rgb({v!r}) = {got!r} right after parsing {order[0]!r}; CSS hex value is {want_hex}",
+                                      {"fn": "equiv", "variants": order})
         rec.sample({"string": "RebeccaPurple", "library": list(parse("RebeccaPurple")), "reference": list(csscolor.read("rebeccapurple"))})
     elif k == "func":
         rnd = G.rng("c07func", shard["seed"], shard["idx"])
